@@ -93,6 +93,9 @@ class HostileRun:
         self.w.start_manager()
         w = self.w
         w.quiesce_limit = 6000      # (a burst of 300 connections takes about a thousand rounds to be worked off)
+        if self.forced and self.forced.get("wall_s"):
+            # a heavy deterministic case: one manager step (a sweep over 300 x 300 deliveries) may take long
+            w.baton.HANG_WALL_S = float(self.forced["wall_s"])
         # sending is not free: with hundreds of connections a broadcast takes a noticeable part of a timer period
         w.write_cost = ch.choose("cfg.write_cost", [0.0, 0.0, 2e-5, 1e-3, 4e-3])
         self.res.config["write_cost"] = w.write_cost
@@ -286,10 +289,18 @@ class HostileRun:
         self.w.step()
         self.res.probes[f"type_sweep_{k}"] += 1
 
-    def op_burst(self):
+    def op_burst(self, case=None):
         ch = self.ch
-        n = ch.choose("burst.n", [5, 30, 101, 120, 260, 300])
-        dyn = ch.flag("burst.dyn", 2, 3)
+        n = case["n"] if case else ch.choose("burst.n", [5, 30, 101, 120, 260, 300])
+        dyn = ch.flag("burst.dyn", 2, 3) if not case else False
+        # in some bursts every member follows the same announcement of the manager (so that the death of one is
+        # discovered while the others are being told about it)
+        same = case["same"] if case else ch.weighted("burst.same", [(3, None), (1, C.MT_CLIENT_CLOSED), (1, C.MT_RTMA_LOG_ERROR),
+                                                                   (1, C.ALL_MESSAGE_TYPES)])
+        if same is not None and not case:
+            # (every broadcast of that kind goes to every member: quadratic work; the 300-member versions are
+            # deterministic cases with their own wall limit)
+            n = min(n, 60 if same == C.ALL_MESSAGE_TYPES else 120)
         group = []
         for i in range(n):
             a = Actor(self.w, f"b{self.n_act}")
@@ -301,8 +312,12 @@ class HostileRun:
                 a.handshake("v2v1", req_id=0, allow_multiple=True)
             else:
                 a.handshake("v2v1", req_id=1 + (i % 89), allow_multiple=True)
-            if ch.flag("burst.sub", 1, 4):
+            if same is not None:
+                a.subscribe(same)
+            elif ch.flag("burst.sub", 1, 4):
                 a.subscribe(ch.choose("burst.subt", [1000, 4000, C.MT_CLIENT_CLOSED, C.MT_ACTIVE_CLIENTS]))
+        if same is not None:
+            self.res.probes["burst_same_subscription"] += 1
         self.res.probes[f"burst_{n}"] += 1
         self.t(f"burst of {n} connections ({'dynamic' if dyn else 'static'} ids)")
         # let the manager accept them (one per round), maybe across an ACTIVE_CLIENTS period
@@ -314,11 +329,21 @@ class HostileRun:
             self.t("clock +5.2 (ACTIVE_CLIENTS due)")
             self.w.step()
             self.w.step()
-        way = ch.choose("burst.way", ["fin", "rst", "keep"])
+        way = case["way"] if case else ch.choose("burst.way", ["fin", "rst", "keep"])
         if way != "keep":
             for a in group:
                 a.leave(way)
+            if (case and case.get("arrived")) or (not case and ch.flag("burst.arrived", 1, 2)):
+                # ... and the manager's kernel knows about every one of them before the manager looks again
+                for a in group:
+                    ms = a.sock.peer
+                    if ms.rx_rst == 1:
+                        ms.arrive_rst_now()
+                    elif ms.rx_fin == 1:
+                        ms.arrive()
             self.t(f"all {n} close ({way}) at the same instant")
+            if case:
+                self.w.quiesce()
 
     def op_churn(self, case=None):
         """one offender after the other connects and leaves again: never more than a few connections are open,
@@ -427,7 +452,7 @@ class HostileRun:
             if self.forced:
                 f = self.forced
                 {"hdr": self.op_hdr_boundary, "cut": self.op_cut_close, "pair": self.op_pair_fail,
-                 "churn": self.op_churn}[f["op"]](f)
+                 "churn": self.op_churn, "burst": self.op_burst}[f["op"]](f)
                 for _ in range(3):
                     self.w.step()
             n_ops = ch.pick("host.nops", 12) + (0 if self.forced else 2)
@@ -592,5 +617,10 @@ def det_cases(tier):
     # many hundreds of connections over the life of one manager, a few at a time
     if tier == "quick":
         cases = cases[::23]
-    cases.append(dict(op="churn", n=1100))
+    cases.append(dict(op="churn", n=1100, wall_s=400))
+    # hundreds of clients that follow the same announcement fail at the same instant
+    for same in (C.MT_CLIENT_CLOSED, C.MT_RTMA_LOG_ERROR, C.ALL_MESSAGE_TYPES):
+        for way in ("rst", "fin"):
+            cases.append(dict(op="burst", n=300 if same != C.ALL_MESSAGE_TYPES else 200, same=same, way=way, arrived=True,
+                              wall_s=600))
     return cases
